@@ -61,7 +61,7 @@ class History:
 
     def _entry(self, env, t):
         import schedrun
-        e = env.dictionary.get('t%d' % t) if env is not None else None
+        e = schedrun.env_dict(env).get('t%d' % t) if env is not None else None
         if e is None or 'status' not in e:
             return dict(st='ABSENT', ver=0, s=-1, e=-1, od=False)
         try:
@@ -146,7 +146,7 @@ class History:
         self.clock = ctl.clock
         execs = []
         for t in tasks:
-            e = env.dictionary.get('t%d' % t)
+            e = schedrun.env_dict(env).get('t%d' % t)
             if execd[t] > 0 and e is not None and e.get('start_clock') is not None and e.get('end_clock') is not None:
                 execs.append(dict(type='exec', t=t, s=int(e['start_clock']), e=int(e['end_clock'])))
         # a task is queued only after its dependencies were published, and reads its start clock after that:
